@@ -15,6 +15,7 @@ per round while unread input remains.  It accounts
 
 `Mode.eof`: the peer has closed its end (reads at the end of the data return 0, writes fail at once).
 `Mode.stopread`: the peer never reads and the pipe is full (every write blocks).
+`Mode.selErr`: `select` reports an error instead of waiting (`rfbReadExactTimeout` returns -1 at once).
 -/
 namespace VncModel.Robust
 open VncModel.Gen.C04
@@ -22,6 +23,8 @@ open VncModel.Gen.C04
 structure Mode where
   eof : Bool := false
   stopread : Bool := false
+  selErr : Bool := false      -- the `select` of the next wait fails (EBADF/EINTR…): the read fails at once
+  wselErr : Bool := false     -- the `select` of `rfbWriteExact` fails (not EINTR): the write fails at once
   deriving Repr
 
 structure Tot where
@@ -56,6 +59,9 @@ def writeRounds (cfg : Cfg) : Nat := (clientWait cfg + writeRetryMs - 1) / write
 def writeBlocked (cfg : Cfg) (t : Tot) : Tot :=
   { t with ww := writeRounds cfg, vt := t.vt + writeRounds cfg * writeRetryMs }
 
+/-- a write to a peer that does not drain: the retry loop, unless `select` itself fails -/
+def writeFail (cfg : Cfg) (m : Mode) (t : Tot) : Tot := if m.wselErr then t else writeBlocked cfg t
+
 def readBlocked (cfg : Cfg) (t : Tot) : Tot :=
   { t with rw := t.rw + 1, vt := t.vt + clientWait cfg }
 
@@ -71,12 +77,13 @@ def run (cfg : Cfg) (m : Mode) : Nat → Conn → List UInt8 → Tot → Status 
       let t1 := { t with n := t.n + 1, amax := max t.amax r.alloc, amaxAlt := max t.amaxAlt r.allocAlt,
                          updWrite := t.updWrite || r.updWrite, updReq := t.updReq || r.updReq, cb := t.cb + r.cb }
       if r.wroteMaybe && (m.eof || m.stopread) then (.unknown, t1)
-      else if r.wrote && m.eof then (.closed, t1)              -- EPIPE
-      else if r.wrote && m.stopread then (.closed, writeBlocked cfg t1)
+      else if r.wrote && m.eof then (.closed, { t1 with cb := t1.cb - r.cbLate })   -- EPIPE
+      else if r.wrote && m.stopread then
+        (.closed, writeFail cfg m { t1 with cb := t1.cb - r.cbLate })
       else match r.out with
         | .cont => run cfg m fuel r.conn r.rest t1
         | .closed => (.closed, t1)
-        | .starved => if m.eof then (.closed, t1) else (.closed, readBlocked cfg t1)
+        | .starved => if m.eof || m.selErr then (.closed, t1) else (.closed, readBlocked cfg t1)
         | .unknown => (.unknown, t1)
 
 /-- a whole `send`: enough fuel for every byte to start a round, plus the end-of-file round -/
